@@ -10,6 +10,7 @@ mod canon;
 mod doc;
 mod stack;
 mod c15;
+mod c15loc;
 mod c04;
 mod c03;
 mod c20;
@@ -65,6 +66,7 @@ fn dispatch(mode: &str, line: &str) -> String {
         "val" => doc::run_val(line),
         "stack" => stack::run(line),
         "c15" => c15::run(line),
+        "c15d" => c15loc::run(line),
         "c04" => c04::run(line),
         "c03" => c03::run_print(line),
         "c14" => c03::run_spans(line),
